@@ -3,8 +3,8 @@ Driver for C31. One case = one fresh copy of the template store, one authorizer 
 requests. Trace lines (tokens are hex unless stated; "-" = absent):
 
   cfg <mode> <hooks 0|1>                 mode ∈ allow | deny | prog | items (plain text)
-  site <bucket> <indexSuffix> <errorKey> website configuration of a template bucket
   req <i> <method(plain)> <host> <path>  start of request i
+  site <bucket> <indexSuffix> <errorKey> website configuration of a bucket when the request arrives
   q <name> <value>                       query parameters (first value per name)
   h <name> <value>                       request headers (lower-cased name, first value)
   az <hook(plain)> <op(plain)> <bucket> <key> <srcBucket> <srcKey> <item> <item2> <dec 1|0|e>
@@ -33,7 +33,7 @@ import Pithos.Spec.Authz
 import Pithos.Model.Authz
 open Pithos Pithos.Proto Pithos.Gen.Routes Pithos.Authz Pithos.AuthzModel
 
-def apiEndpoint := "localhost"
+def apiEndpoint := "s3.localhost"
 def websiteEndpoint := "s3-website.localhost"
 
 /-- absent ("-") or the decoded string -/
@@ -78,6 +78,11 @@ structure Would where
   item2 : String
   dec : Bool
 
+structure Site where
+  bucket : String
+  index : String
+  err : Option String
+
 structure RT where
   idx : Nat := 0
   req : Req := { method := "", host := "", path := "", query := [], headers := [] }
@@ -86,11 +91,7 @@ structure RT where
   leaks : List (String × String) := []
   listed : Array Listed := #[]
   would : List Would := []
-
-structure Site where
-  bucket : String
-  index : String
-  err : Option String
+  sites : List Site := []
 
 def findOp (s : String) : Option Op := Op.all.find? (fun o => o.name == s)
 def findSM (s : String) : Option SM := SM.all.find? (fun o => o.name == s)
@@ -106,7 +107,7 @@ def hookOfName : String → Option Hook
 /-- listed kinds a hook is responsible for; `true` = counted entries (order compared), `false` = prefixes -/
 def kindsOf : String → List (String × Bool)
   | "listBucket" => [("bucket", true)]
-  | "listObject" => [("object", true), ("prefix", false)]
+  | "listObject" => [("object", true), ("prefix", false), ("version", false), ("marker", false), ("vprefix", false)]
   | "listMultipartUpload" => [("upload", true), ("uprefix", false)]
   | "listPart" => [("part", true)]
   | _ => []
@@ -230,15 +231,16 @@ def judgeReq (acc : JAcc) (mode : String) (hooks : Bool) (sites : List Site) (t 
         let covering := allows.filter (fun a => (a.op.map (fun o => coversV o m s.versioned)).getD false)
         let exact := covering.any (fun a => a.b == s.b && a.k == s.k && a.sb == s.sb && a.sk == s.sk)
         if !exact then
-          let what := s!"{tag}:{t.req.method}-{strTok "-"}{t.req.path}:storage.{s.name}({show? s.b},{show? s.k},{show? s.sb},{show? s.sk})"
-          if allows.isEmpty then
+          let what := s!"{tag}:{t.req.method}-{t.req.path}:storage.{s.name}({show? s.b},{show? s.k},{show? s.sb},{show? s.sk})"
+          if mux == .website && s.name == "GetObject" && s.k.isSome && s.k == errKeyOf s.b
+              && allows.any (fun a => a.b == s.b) then
+            -- one defect, one signature: the error document is read under whatever the request was allowed as
+            acc := acc.v "C31.website-error-document-read-without-authorization" s!"{what}-is-the-error-document;authorizer-was-asked-about-{allows.toList.map (fun a => (a.opName, show? a.k))}"
+          else if allows.isEmpty then
             acc := acc.v s!"C31.effect-without-allow.{s.name}" s!"{what}-without-any-allow-decision"
           else if covering.isEmpty then
             let ops := allows.toList.map (·.opName)
             acc := acc.v s!"C31.effect-not-covered.{ops.headD "?"}.{s.name}" s!"{what}-allowed-only-as-{ops}"
-          else if mux == .website && s.name == "GetObject" && s.k.isSome && s.k == errKeyOf s.b
-              && covering.any (fun a => a.b == s.b) then
-            acc := acc.v "C31.website-error-document-read-without-authorization" s!"{what}-is-the-error-document;authorizer-was-asked-about-{covering.toList.map (fun a => show? a.k)}"
           else
             acc := acc.v s!"C31.effect-on-other-resource.{s.name}" s!"{what}-but-allow-was-for-{covering.toList.map (fun a => (show? a.b, show? a.k, show? a.sb, show? a.sk))}"
         -- 3. read-only operations never mutate
@@ -279,7 +281,8 @@ def judgeReq (acc : JAcc) (mode : String) (hooks : Bool) (sites : List Site) (t 
         | none =>
           match t.would.find? (fun w => w.hook == hook && w.item == l.item && w.item2 == l.item2) with
           | some w =>
-            if !w.dec then
+            -- (the ?versions listing has its own, narrower, signature below)
+            if !w.dec && !["version", "marker", "vprefix"].contains l.kind then
               acc := acc.v s!"C31.item-listed-without-consulting.{hook}" s!"{tag}:{l.kind}-{l.item}-listed;{hook}-was-not-consulted-and-denies-it"
           | none => pure ()
       for a in decided do
@@ -294,9 +297,10 @@ def judgeReq (acc : JAcc) (mode : String) (hooks : Bool) (sites : List Site) (t 
     let vers := t.listed.toList.filter (fun l => l.kind == "version" || l.kind == "marker" || l.kind == "vprefix")
     for l in vers do
       acc := acc.stat "items.versions.listed"
+      let consulted := azs.any (fun a => a.hook == "listObject" && a.item == some l.item)
       match t.would.find? (fun w => w.hook == "listObject" && w.item == l.item) with
       | some w =>
-        if !w.dec then
+        if !w.dec && !consulted then
           acc := acc.v "C31.list-object-versions-ignores-item-hook" s!"{tag}:{l.kind}-{l.item}-listed-by-ListObjectVersions;the-listObject-hook-denies-it-and-was-not-consulted"
       | none => pure ()
     -- DeleteObjects
@@ -339,7 +343,6 @@ def parseSt (t : List String) : Option St :=
 def judgeCase (_k : Nat) (lines : List String) : Verdict := Id.run do
   let mut mode := "?"
   let mut hooks := false
-  let mut sites : List Site := []
   let mut cur : Option RT := none
   let mut acc : JAcc := {}
   let mut nreq := 0
@@ -348,7 +351,7 @@ def judgeCase (_k : Nat) (lines : List String) : Verdict := Id.run do
   for l in lines do
     match tokens l with
     | ["cfg", m, h] => mode := m; hooks := h == "1"
-    | ["site", b, i, e] => sites := sites ++ [{ bucket := strTok b, index := strTok i, err := optTok e }]
+    | ["site", b, i, e] => cur := cur.map (fun t => { t with sites := t.sites ++ [{ bucket := strTok b, index := strTok i, err := optTok e }] })
     | ["req", i, m, host, path] =>
       cur := some { idx := i.toNat!, req := { method := m, host := strTok host, path := strTok path, query := [], headers := [] } }
     | ["q", n, v] => cur := cur.map (fun t => { t with req := { t.req with query := t.req.query ++ [(strTok n, strTok v)] } })
@@ -379,8 +382,8 @@ def judgeCase (_k : Nat) (lines : List String) : Verdict := Id.run do
         for a in azReq do
           acc := acc.stat s!"op.{a.opName}"
           acc := acc.stat s!"decision.{a.dec}"
-        let (acc1, _) := tieReq acc sites t
-        acc := judgeReq acc1 mode hooks sites t
+        let (acc1, _) := tieReq acc t.sites t
+        acc := judgeReq acc1 mode hooks t.sites t
         cur := none
     | ["digest", d] =>
       if mode == "deny" && d != "same" then
